@@ -48,10 +48,13 @@ def main(tier, seed):
     for size in sizes:
         for auto in (True, False):
             for order in ("in", "out"):
-                for pre in (None, "get", "contains", "len"):
+                for pre in (None, "get", "contains", "len", "ooo", "remove", "update"):
                     for npts in (1, 3):
                         if tier == "quick" and size >= 100 and (pre == "len" or (npts == 3 and order == "out")):
                             continue
+                        if pre in ("remove", "update") and size == 0:
+                            continue
+                        amode = "w+" if (ci % 3 == 2) else None
                         g = dbgen.Gen((seed << 12) + ci, {"p_selective": 1.0})
                         g.ids = 1
                         pts = g.points_batch(size, in_order=True) if size else []
@@ -63,6 +66,12 @@ def main(tier, seed):
                             hist.append(("contains", one, None))
                         elif pre == "len":
                             hist.append(("len",))
+                        elif pre == "ooo":
+                            hist.append(("insert", [g.point(dbgen.T0 - 50 * dbgen.SEC)], None))      # leaves the index invalid
+                        elif pre == "remove":
+                            hist.append(("remove", one, None))                                         # rewrite: the handle is reopened at offset 0
+                        elif pre == "update":
+                            hist.append(("update", one, {"tags": ("static", {"u": "x"})}, None))
                         t_last = max([p["time"] for p in pts], default=dbgen.T0)
                         new = []
                         for j in range(npts):
@@ -70,11 +79,11 @@ def main(tier, seed):
                             p["tags"]["c"] = rng.choice(["x,y", "q\"uote", "line\r\nbreak", "é", "plain"])
                             new.append(p)
                         op = ("insert", new, None, "multiple") if npts > 1 else ("insert", new, None)
-                        rec = iotie.recorded_run(tf, str(ck.work / f"rec{ci}"), hist, op, auto)
+                        rec = iotie.recorded_run(tf, str(ck.work / f"rec{ci}"), hist, op, auto, storage_kwargs={"access_mode": amode} if amode else None)
                         ci += 1
                         ev = rec["events"]
                         labs = labels_of(ev)
-                        cases.append(dict(size=size, auto=auto, order=order, pre=pre, n=npts, calls=len(ev)))
+                        cases.append(dict(size=size, auto=auto, order=order, pre=pre, n=npts, calls=len(ev), access_mode=amode or "r+"))
                         key = (auto, order, npts)
                         per_point.setdefault(key, {})[size] = len(ev)
                         bb, ab = rec["before_bytes"] or b"", rec["after_bytes"] or b""
@@ -89,10 +98,10 @@ def main(tier, seed):
                             why = "the file does not decode to the old contents followed by the inserted points"
                         if why and len(direct_bad) < 4:
                             direct_bad.append({"kind": "failing-input", "why": why, "database_size": size, "auto_index": auto, "order": order,
-                                               "preceding_read": pre, "points_inserted": new, "calls": [f"{e[1]}.{e[2]}" for e in ev],
+                                               "preceding_operation": pre, "access_mode": amode or "r+", "points_inserted": new, "calls": [f"{e[1]}.{e[2]}" for e in ev],
                                                "history": hist if size <= 10 else f"insert_multiple of {size} in-order points" + (f", then {pre}" if pre else ""),
                                                "op": op})
-                        if size <= 10:
+                        if size <= 10 and pre not in ("remove", "update"):
                             coq_cases.append((auto, hist, op, [l for l in labs if l not in NOEFFECT], rec["after"] or []))
     # the number of calls must not depend on the size
     for key, d in per_point.items():
